@@ -169,7 +169,10 @@ def run(ctx):
         if f[0] == "tree":
             trees.append(json.loads(f[1], object_hook=None))
     trees = [totuple(t) for t in trees]
-    ntrees = ctx.n(2000, 20000)
+    grid = R.flag_scope_grid()
+    trees += grid if ctx.quick else grid * 1
+    ctx.extra["flag_scope_grid"] = len(grid)
+    ntrees = ctx.n(1200, 20000)
     for _ in range(ntrees):
         t = gen.tree()
         if rng.random() < 0.12:
